@@ -7,14 +7,14 @@ from common import *
 ID = 'C02'
 PKG = 'version'
 V = MOD + '/version.'
-ROOTS = [V + n for n in ('VerifC02Laws', 'VerifC02Sort3', 'VerifC02Sort4')]
+ROOTS = [V + n for n in ('VerifC02Laws', 'VerifC02Less', 'VerifC02Sort3', 'VerifC02Sort4')]
 ALPH = b'ABCDEFGHIJKLMNOPQRSTUVWXYZabcdefghijklmnopqrstuvwxyz0123456789.+~:-'
 BOUNDS = {'quick': dict(U=2, R=1, K=3, SU=2, SR=0), 'thorough': dict(U=3, R=2, K=4, SU=2, SR=1)}
 META = dict(
     functions_encoded=['version.Compare', 'version.verrevcmp', 'version.order', 'version.cisdigit', 'version.cisalpha', 'version.Slice.Len', 'version.Slice.Swap',
-                       'version.Slice.Less', 'sort.Sort', 'sort.pdqsort (insertion-sort path)', 'sort.insertionSort'],
+                       'version.Slice.Less/Len/Swap', 'sort.Sort', 'sort.pdqsort (insertion-sort path)', 'sort.insertionSort'],
     stubs=['math/bits.Len (concrete)'],
-    bounds={'quick': 'laws (also on digit runs beyond 64 bits: 1-2 symbolic digits in front of a shared 18-19 digit tail); any 64-bit epochs, upstream <= 2, revision <= 1 characters over [A-Za-z0-9.+~:-] for each of a, b, c (all length tuples); sort: slices of 3 versions with upstream length <= 2 (all elements the same length), no revision, any epochs',
+    bounds={'quick': 'laws (also on digit runs beyond 64 bits: 1-2 symbolic digits in front of a shared 18-19 digit tail); any 64-bit epochs, upstream <= 2, revision <= 1 characters over [A-Za-z0-9.+~:-] for each of a, b, c (all length tuples); the sort adapter (Less, Len, Swap) against Compare on every pair within the same bounds; sort: slices of 3 versions with upstream length <= 2 (all elements the same length), no revision, any epochs',
             'thorough': 'laws: upstream <= 3, revision <= 2; sort: slices of 4 versions, upstream <= 2, revision <= 1'},
     outside_claim=['longer components', 'slices of more than 12 elements (pdqsort partitioning / heapsort paths are stdlib code whose contract - correct for any strict weak order - is trusted; the laws are that contract\'s precondition)'],
     assumptions=['sortedness is judged by the reference order (harness specCompare), the permutation property by field-wise equality'])
@@ -28,6 +28,8 @@ def jobs(tier):
     for tail in (b'0' * 19, b'9' * 19, b'0' * 18):
         for heads in ((1, 1, 1), (1, 2, 1)) if tier == 'quick' else ((1, 1, 1), (1, 2, 1), (2, 2, 2), (2, 1, 0)):
             js.append(dict(name='lawslong_%s_%s' % (tail[:1].decode() + str(len(tail)), ''.join(map(str, heads))), kind='lawslong', tail=tail, heads=heads, lens=(0,)))
+    for lens in itertools.product(range(b['U'] + 1), range(b['R'] + 1), repeat=2):
+        js.append(dict(name='less_' + '_'.join(map(str, lens)), kind='less', lens=lens))
     for u in range(b['SU'] + 1):
         for r in range(b['SR'] + 1):
             js.append(dict(name='sort%d_%d_%d' % (b['K'], u, r), kind='sort', K=b['K'], u=u, r=r))
@@ -60,6 +62,16 @@ def run_job(env, job):
             args += [e, su, sr]
         return run_harness(env, PKG, 'VerifC02Laws', args, assume, unwind=4 * max(job['lens']) + 8, merge=True, timeout_ms=900000, interp_kw=dict(merge_ints=False),
                            unsigned=unsigned, sample='order laws on (a,b,c) with (upstream,revision) lengths %r, 64-bit epochs' % (job['lens'],))
+    if job['kind'] == 'less':
+        for i, nm in enumerate('ab'):
+            u, r = job['lens'][2 * i], job['lens'][2 * i + 1]
+            e = z3.BitVec('e' + nm, 64)
+            su, sr = symstr('u' + nm, u), symstr('r' + nm, r)
+            assume += [in_set(c, ALPH) for c in list(su) + list(sr)]
+            unsigned.append(len(args))
+            args += [e, su, sr]
+        return run_harness(env, PKG, 'VerifC02Less', args, assume, unwind=4 * max(job['lens']) + 8, merge=True, timeout_ms=900000, interp_kw=dict(merge_ints=False),
+                           unsigned=unsigned, sample='Less against Compare on (a,b) with (upstream,revision) lengths %r, 64-bit epochs' % (job['lens'],))
     K = job['K']
     for i in range(K):
         e = z3.BitVec('e%d' % i, 64)
@@ -81,6 +93,7 @@ def validation_calls(env, seed):
             t += [rnd.choice([0, 1, 2**64 - 1]), rnd.choice(pool), rnd.choice(pool[:9])]
         calls.append(('VerifC02Laws', t))
         calls.append(('VerifC02Sort3', t))
+        calls.append(('VerifC02Less', t[:6]))
     return calls
 
 
